@@ -10,6 +10,8 @@ const (
 	declF1    = "declare i32 @f1(i32)"
 	declF2    = "declare i32 @f2(i32, float)"
 	declFV    = "declare i32 @fv(i32, ...)"
+	declF1def = "define i32 @f1def(i32 %a) {\n  ret i32 %a\n}"
+	declF1res = "define i32 (i32)* @f1resolver() {\n  ret i32 (i32)* @f1def\n}"
 	declFVdef = "define i32 @fvdef(i32 %a, ...) {\n  ret i32 %a\n}"
 	declPers  = "declare i32 @__gxx_personality_v0(...)"
 	declSEH   = "declare i32 @__CxxFrameHandler3(...)"
@@ -23,7 +25,7 @@ func callSite(f *Frag, kw string) (text string, retType string) {
 	cc := f.Alt("callconv", callConvs...)
 	retAttrs := f.Alt("ret-attrs", "", "zeroext ", "signext ", "inreg ", "noundef ")
 	as := f.Opt("addrspace", "addrspace(0) ")
-	form := f.N("callee", 9)
+	form := f.N("callee", 13)
 	var callee, args, ty string
 	retType = "i32"
 	a := f.Param("i32")
@@ -57,6 +59,21 @@ func callSite(f *Frag, kw string) (text string, retType string) {
 	case 8: // variadic callee reached through an alias
 		f.Need(declFVdef, "@fvalias = alias i32 (i32, ...), i32 (i32, ...)* @fvdef")
 		ty, callee, args = "i32 (i32, ...)", "@fvalias", "i32 "+a+", i32 7"
+	}
+	switch form {
+	case 9: // callee is an ifunc
+		f.Need(declF1def, declF1res, "@f1ifunc = ifunc i32 (i32), i32 (i32)* ()* @f1resolver")
+		ty, callee, args = "i32", "@f1ifunc", "i32 "+a
+	case 10: // callee is an alias of a defined function
+		f.Need(declF1def, "@f1alias = alias i32 (i32), i32 (i32)* @f1def")
+		ty, callee, args = "i32", "@f1alias", "i32 "+a
+	case 11: // variadic callee that is an ifunc, explicit function type
+		f.Need(declFVdef, "define i32 (i32, ...)* @fvresolver() {\n  ret i32 (i32, ...)* @fvdef\n}", "@fvifunc = ifunc i32 (i32, ...), i32 (i32, ...)* ()* @fvresolver")
+		ty, callee, args = "i32 (i32, ...)", "@fvifunc", "i32 "+a+", float "+x
+	case 12: // callee is a constant expression that changes the function type
+		f.Need(declF1)
+		ty, callee, args, retType = "float (i32)", "bitcast (i32 (i32)* @f1 to float (i32)*)", "i32 "+a, "float"
+		retAttrs = ""
 	}
 	if cc != "" && (form != 4 && form != 6) {
 		// a calling convention on the call must match the callee: use an indirect callee.
